@@ -11,6 +11,8 @@ pub struct E2Result {
     pub generated: u64,
     pub unique: u64,
     pub max_depth: u64,
+    /// the state-count cap was reached: the search is NOT complete
+    pub capped: bool,
     /// property name -> action sequence (Debug-rendered) leading to a violating state
     pub discoveries: Vec<(String, Vec<String>, String)>,
 }
@@ -38,14 +40,17 @@ where
         Some(d) => b.target_max_depth(d),
         None => b,
     };
-    let c = b.spawn_bfs().join();
+    // memory guard: stop (and say so) rather than exhaust RAM; ~150 bytes per stored state
+    let cap: usize = std::env::var("VERIF_E2_STATE_CAP").ok().and_then(|x| x.parse().ok()).unwrap_or(120_000_000);
+    let c = b.target_state_count(cap).spawn_bfs().join();
     let mut discoveries = vec![];
     for (name, path) in c.discoveries() {
         let last = format!("{:?}", path.last_state());
         let acts: Vec<String> = path.into_actions().iter().map(|a| format!("{:?}", a)).collect();
         discoveries.push((name.to_string(), acts, last));
     }
-    E2Result { generated: c.state_count() as u64, unique: c.unique_state_count() as u64, max_depth: c.max_depth() as u64, discoveries }
+    let capped = c.state_count() >= cap && discoveries.is_empty();
+    E2Result { generated: c.state_count() as u64, unique: c.unique_state_count() as u64, max_depth: c.max_depth() as u64, capped, discoveries }
 }
 
 /// fold a search result into the report; `case` describes the model instance (replayable)
@@ -55,6 +60,10 @@ pub fn record(rep: &mut Report, part: &str, case: Value, r: &E2Result, sig_of: &
     rep.evaluations += r.unique;
     rep.count(&format!("{}:unique_states", part), r.unique);
     rep.count(&format!("{}:generated_states", part), r.generated);
+    if r.capped {
+        rep.exhaustive = false;
+        rep.machinery_errors.push(format!("{}: state-count cap reached after {} generated states; the bound was NOT completed", part, r.generated));
+    }
     rep.parts.push(json!({"part": part, "engine": "E2 stateright BFS", "unique_states": r.unique, "generated_states": r.generated, "max_depth": r.max_depth, "model": case}));
     for (name, acts, last) in &r.discoveries {
         rep.violation(Violation {
